@@ -20,6 +20,7 @@ from gnpy.topology.request import PathRequest
 from gnpy.topology.spectrum_assignment import (OMS, BitmapValue, pth_assign_spectrum, frequency_to_n,
                                                build_path_oms_id_list)
 
+from vf import stock
 from vf.gen import common as G, services as S
 from vf.props import _prop_common as P
 
@@ -34,14 +35,15 @@ ASSUMPTIONS = ['first-fit optimality is judged for requests whose slots are all 
                'the model reads the guard-band limits and usable slots from the initial maps (C15 judges those)']
 REQUIRED_COUNTERS = {'requests_stepped': 300, 'accepted': 100, 'blocked': 20, 'first_fit_checks': 60,
                      'fixed_slot_requests': 40, 'multi_slot_requests': 30, 'blocked_no_change_checks': 20,
-                     'final_occupancy_checks': 20, 'batched_calls': 10, 'requests_in_batched_calls': 100}
-CASE_TIMEOUT = {'quick': 200, 'thorough': 400}
+                     'final_occupancy_checks': 20, 'batched_calls': 10, 'requests_in_batched_calls': 100,
+                     'stock_tests_run': 5, 'stock_assignment_calls': 20, 'stock_requests_in_calls': 100}
+CASE_TIMEOUT = {'quick': 400, 'thorough': 1800}
 FREE, OCC, UNU = BitmapValue.FREE, BitmapValue.OCCUPIED, BitmapValue.UNUSABLE
 
 
 def plan(tier, seed):
     n = 900 if tier == 'quick' else 9000
-    return [{'idx': i, 'kind': 'synthetic' if i % 4 else 'planning'} for i in range(n)]
+    return [{'idx': i, 'kind': 'synthetic' if i % 4 else 'planning'} for i in range(n)] + stock.stock_cases(tier, n, ID)
 
 
 # ------------------------------------------------------------------------------------------------------------
@@ -501,6 +503,8 @@ def run_planning(case, ctx):
 
 
 def run_case(case, ctx):
+    if case['kind'] == 'stock':
+        return stock.run_stock_case(case, ctx, ID)
     if case['kind'] == 'synthetic':
         run_synthetic(case, ctx)
     else:
